@@ -226,6 +226,8 @@ class C03(Prop):
             "calls": st.lists(call, min_size=1, max_size=6),
             "keys": st.lists(key, min_size=6, max_size=6),
             "deflate": gen.deflate_opt(),
+            # the application has switched on DEBUG logging for the library
+            "debug_log": gen.debug_log(),
             # an earlier connection in this process (same WebSocket object or another) and how it ended
             "prelude": gen.prelude(),
             # a second live connection in the same process (interleaved with this one, or blocked in a send)
@@ -304,7 +306,8 @@ class C03(Prop):
                                 yield {"calls": [{"m": kind, "arg": (["ascii", n, n + i] if kind == "send_text" else
                                                                      ["rep", n, n + i])} for i, n in enumerate(seq)],
                                        "keys": FIXED_KEYS[:1] * 6, "deflate": cfg}
-        return [Enumeration("length_sweep_x_4_keys", sweep, exhaustive=True), after_every_prelude(battery),
+        from harness.runner import with_debug_log
+        return [Enumeration("length_sweep_x_4_keys", sweep, exhaustive=True), after_every_prelude(battery), with_debug_log(battery),
                 Enumeration("deflate_message_orders", deflate_orders, exhaustive=True),
                 Enumeration("one_complete_frame_per_call_while_another_thread_writes", scheduled, exhaustive=True),
                 Enumeration("special_code_points_round_trip", special_texts, exhaustive=True),
